@@ -5,7 +5,7 @@
    balance_holds are the textbook definitions of coq/C01/Spec.v;  rewrite is the executable model of the rewriting of
    reactions to master species (coq/C01/Rewrite.v);  the check_* / *_failures functions are the executable checkers
    that ./check C01 applies (by vm_compute) to what the implementation reports (coq/C01/Checker.v). *)
-From Coq Require Import Reals QArith Qreals Qabs List String PArith FMapPositive.
+From Coq Require Import Reals QArith Qreals Qabs List String PArith FMapPositive Lra.
 From IPV Require Import Base.RExpr Base.IntervalEval C01.Spec C01.Rewrite C01.KCalcProofs C01.Checker C01.CheckerProofs
   Gen.Gen_C01_code.
 Import ListNotations.
@@ -19,7 +19,7 @@ Theorem kcalc_is_vant_hoff_plus_analytic : forall k T, 0 < T ->
   evalR (env_of [kr0 k; krh k; kr1 k; kr2 k; kr3 k; kr4 k; kr5 k; kr6 k; T; ln 10]) kcalc_lk
   = kr0 k - krh k / (ln 10 * (83147 / 10000000)) * (1 / T - 1 / (29815 / 100))
     + (kr1 k + kr2 k * T + kr3 k / T + kr4 k * (ln T / ln 10) + kr5 k / (T * T) + kr6 k * (T * T)).
-Proof. exact kcalc_lk_spec. Qed.
+Proof. c01_kcalc_lk. Qed.
 Print Assumptions kcalc_is_vant_hoff_plus_analytic.
 
 (* the whole function (pressure term included, guarded by delta_p > 0 with delta_p = presPa - 101325) returns that
@@ -32,24 +32,30 @@ Theorem kcalc_at_one_atmosphere :
   kcalc_lk_vars = ["l_logk[logK_T0]"; "l_logk[delta_h]"; "l_logk[T_A1]"; "l_logk[T_A2]"; "l_logk[T_A3]"; "l_logk[T_A4]";
                    "l_logk[T_A5]"; "l_logk[T_A6]"; "tempk"; "LOG_10"] /\ kcalc_lk_conds = [].
 Proof.
-  destruct kcalc_shape as [S1 [S2 [S3 [S4 [S5 [S6 [S7 S8]]]]]]].
-  repeat split; try assumption. exact kcalc_model_low_p. exact kcalc_dp_1atm.
+  split; [|repeat split; try reflexivity; c01_leaf].
+  intros k dv T P HT HP. unfold kcalc_model.
+  assert (E : evalR (env_of [P]) kcalc_dp = P - 101325) by c01_leaf.
+  rewrite E. destruct (Rlt_dec 0 (P - 101325)) as [H|_]; [lra|].
+  unfold kenv. rewrite (kcalc_is_vant_hoff_plus_analytic k T HT). reflexivity.
 Qed.
 Print Assumptions kcalc_at_one_atmosphere.
 
 (* k_calc is linear in the log K vector: adding reactions coefficient-wise (trxn_add) adds their log K(T) *)
 Theorem kcalc_linear : forall c a b T L,
   evalR (kenv (kadd (kscale c a) b) T L) kcalc_lk = c * evalR (kenv a T L) kcalc_lk + evalR (kenv b T L) kcalc_lk.
-Proof. exact kcalc_lk_linear. Qed.
+Proof. c01_kcalc_linear. Qed.
 Print Assumptions kcalc_linear.
 
 Theorem kcalc_at_25C : forall logk dh,
   evalR (kenv (mkKR logk dh 0 0 0 0 0 0) (29815 / 100) (ln 10)) kcalc_lk = logk.
-Proof. exact kcalc_at_25C_no_analytic. Qed.
+Proof.
+  intros. unfold kenv. rewrite (kcalc_is_vant_hoff_plus_analytic (mkKR logk dh 0 0 0 0 0 0) (29815 / 100)) by lra.
+  cbn [kr0 krh kr1 kr2 kr3 kr4 kr5 kr6]. unfold Rdiv. ring.
+Qed.
 Print Assumptions kcalc_at_25C.
 
 Theorem LOG_10_constant_is_ln10 : evalR (env_of []) c01_LOG_10 = ln 10 /\ c01_LOG_10_vars = [].
-Proof. exact LOG_10_is_ln10. Qed.
+Proof. split; [|reflexivity]. unfold c01_LOG_10. unfold_evalR. f_equal. lra. Qed.
 Print Assumptions LOG_10_constant_is_ln10.
 
 (* delta_h given in J / cal / kcal is converted to kJ with 1/1000 and 4.184 *)
@@ -59,7 +65,7 @@ Theorem delta_h_units :
   dh_factor_0_vars = [] /\ dh_factor_1_vars = [] /\
   dh_compound_conds = [["j == 4 || j == 5"; "strstr(token, ""k"") != token"];
                        ["j == 4 || j == 5"; "strstr(token, ""c"") != NULL"]].
-Proof. exact delta_h_unit_factors. Qed.
+Proof. repeat split; try reflexivity; c01_leaf. Qed.
 Print Assumptions delta_h_units.
 
 (* ---- T-gen: molalities / sum_species / read-outs ------------------------------------------------------------ *)
@@ -67,33 +73,40 @@ Print Assumptions delta_h_units.
 (* the loop of Phreeqc::molalities gives  lm + lg = lk + sum coef*la(master)  for every token list *)
 Theorem molalities_satisfy_mass_action : forall lk lg toks,
   lm_model lk lg toks + lg = lk + fold_right (fun t acc => snd t * fst t + acc) 0 toks.
-Proof. exact molalities_mass_action. Qed.
+Proof.
+  intros lk lg toks. unfold lm_model. rewrite fold_left_is_sum.
+  replace (evalR (env_of [lk; lg]) mol_lm_init) with (lk - lg) by c01_leaf.
+  rewrite (fold_right_sum_ext _ (fun t => snd t * fst t)) by c01_leaf. lra.
+Qed.
 Print Assumptions molalities_satisfy_mass_action.
 
 Theorem molalities_statement_shape :
   mol_lm_site_kinds = ["assign"; "compound:+="] /\ mol_lm_init_vars = ["s_x[i]->lk"; "s_x[i]->lg"] /\
   mol_lm_inc_vars = ["rxn_ptr->s->la"; "rxn_ptr->coef"] /\ mol_lm_init_conds = [] /\ mol_lm_inc_conds = [] /\
   (forall lm lg, evalR (env_of [lm; lg]) mol_master_la = lm + lg).
-Proof. exact molalities_shape. Qed.
+Proof. repeat split; try reflexivity; c01_leaf. Qed.
 Print Assumptions molalities_statement_shape.
 
 (* charge balance, alkalinity and valence-state totals in sum_species are the weighted sums of the species moles *)
 Theorem sum_species_is_weighted_sum : forall l,
   sum_model ss_cb_init ss_cb_inc l = dot l /\ sum_model ss_alk_init ss_alk_inc l = dot l /\
   sum_model (Const 0) ss_tot_inc l = dot l.
-Proof. exact sum_species_sums. Qed.
+Proof. intros l. repeat split; apply sum_model_dot; c01_leaf. Qed.
 Print Assumptions sum_species_is_weighted_sum.
 
 Theorem ph_pe_readout : forall la,
   evalR (env_of [la]) ss_ph = - la /\ evalR (env_of [la]) ss_pe = - la /\
   ss_ph_vars = ["s_hplus->la"] /\ ss_pe_vars = ["s_eminus->la"] /\ ss_ph_conds = [] /\ ss_pe_conds = [].
-Proof. exact sum_species_ph_pe. Qed.
+Proof. intros. repeat split; try reflexivity; c01_leaf. Qed.
 Print Assumptions ph_pe_readout.
 
 Theorem activity_and_si_readout :
   (forall lm lg, evalR (env_of [lm; lg]) ro_la = lm + lg /\ ro_la_vars = ["s_ptr->lm"; "s_ptr->lg"]) /\
   (forall lk toks, si_model lk toks = fold_right (fun t acc => snd t * fst t + acc) 0 toks - lk).
-Proof. exact (conj readout_la readout_si). Qed.
+Proof.
+  split; [intros; split; [c01_leaf|reflexivity]|].
+  intros lk toks. unfold si_model. rewrite (sum_model_dot_swapped ro_iap_init ro_iap_inc) by c01_leaf. c01_leaf.
+Qed.
 Print Assumptions activity_and_si_readout.
 
 (* ---- model: rewriting of reactions to master species (any database size, any substitution depth) ----------- *)
